@@ -70,6 +70,7 @@ func c05(c *core.Ctx, r *core.Report) {
 	c05alarms(c, r)
 	c05pure(c, r)
 	c05build(c, r)
+	ensureRule(c, r, "R05.ensure", "analysis/taint", "Visitor.Visit", 8)
 }
 
 func c05ondemand(c *core.Ctx, r *core.Report) {
